@@ -252,8 +252,11 @@ fn exec_t<T: Sc, F: Factory<T>>(sc: &Scenario) -> RunReport {
             }
             let _ = m;
             rep.signatures = vec![format!(
-                "{:?}|{}|{}|{}|acc{}|restore{}|{:?}|ok{}",
+                "{:?}|M{}P{}N{}|{}|{}|{}|acc{}|restore{}|{:?}|ok{}",
                 F::KIND,
+                m,
+                p,
+                (n / 8).min(6),
                 if sc.parallel { "par" } else { "seq" },
                 if sc.mrhs { "mrhs" } else { "single" },
                 reason,
